@@ -855,7 +855,9 @@ def buffer_lines(rng, n):
 def compare(triples, res):
     lines = [t[1] for t in triples]
     answers = proto.run_lines(lines)
-    for (stream, line, real), ans in zip(triples, answers):
+    for t, ans in zip(triples, answers):
+        stream, line, real = t[0], t[1], t[2]
+        origin = t[3] if len(t) > 3 else None
         if ans == 'unmodelled':
             res.count('model:unmodelled:' + stream)
             continue
@@ -873,8 +875,8 @@ def compare(triples, res):
         elif stream == 'extract' and real[0] == 'ok':
             res.count('extract:messages', len(real[1]))
         if model != real:
-            res.disagreements.append({'stream': stream, 'case': {'line': line}, 'model': repr(model)[:1500],
-                                      'real': repr(real)[:1500]})
+            res.disagreements.append({'stream': stream, 'case': origin if origin is not None else {'line': line},
+                                      'line': line[:4000], 'model': repr(model)[:1500], 'real': repr(real)[:1500]})
 
 
 # --------------------------------------------------------------------------
@@ -974,7 +976,7 @@ def shard(arg):
         if f:
             res.failures.append(f)
         try:
-            triples.extend(corr_lines(c, rng))
+            triples.extend(t + (c,) for t in corr_lines(c, rng))
         except Exception as e:  # noqa
             res.disagreements.append({'stream': 'harness', 'case': c, 'model': '', 'real': 'corr_lines raised %s: %s' % (type(e).__name__, e)})
     triples.extend(buffer_lines(rng, 3 * n))
@@ -999,9 +1001,33 @@ def run(ctx):
 
 
 def search(ctx, res, broken):
+    """failing-input search: the templates on which model and code disagreed first, each under
+    every catalogue family and with every clause checked; then a larger seeded budget"""
     found = []
+    seen = set()
+    for d in res.disagreements[:300]:
+        c = d.get('case')
+        if not isinstance(c, dict) or 'tmpl' not in c:
+            continue
+        key = json.dumps(c.get('tmpl'), sort_keys=True)
+        if key in seen:
+            continue
+        seen.add(key)
+        for cat, checks in (('id', ['identity', 'lookups']), ('scramble', ['placeholders', 'excluded']),
+                            ('perm', ['placeholders']), ('drop', ['placeholders'])):
+            c2 = dict(c)
+            c2['cat'] = cat
+            c2['checks'] = checks if c.get('checks') and 'lookups' in c['checks'] or cat != 'id' else ['identity']
+            f = replay(ctx, c2)
+            if f:
+                found.append(f)
+                break
+        if len(found) >= 5:
+            return found
+    if found:
+        return found
     for r in pmap('harness.props.c19', 'shard', [(ctx.seed + 1000 + i, i, 600) for i in range(16)]):
-        found.extend(r.failures)
+        found.extend(f for f in r.failures if not f.get('what', '').startswith('the reference template renders'))
     return found
 
 
